@@ -58,6 +58,8 @@ pub struct AppSpec {
     /// geometry points per edge (2..6); geometry rows to drop from the end of the table
     pub geom_points: usize,
     pub geom_truncate: usize,
+    /// every third edge's stored linestring repeats one of its points (a zero-length segment, as digitised data has)
+    pub geom_repeat: bool,
     /// road class / vehicle restriction data for the edge matcher (independent of the frontier)
     pub matcher_classes: Option<Vec<u8>>,
     pub matcher_vehicle_rows: Option<Vec<(usize, String, f64, String)>>,
@@ -95,6 +97,7 @@ impl AppSpec {
             extra_edge_cols: false,
             geom_points: 2,
             geom_truncate: 0,
+            geom_repeat: false,
             matcher_classes: None,
             matcher_vehicle_rows: None,
             energy: None,
@@ -235,7 +238,7 @@ pub fn edge_geometry(spec: &AppSpec, e: usize) -> Vec<(f32, f32)> {
     let net = &spec.world.net;
     let (a, b) = (net.coords[net.edges[e].src], net.coords[net.edges[e].dst]);
     let n = spec.geom_points.max(2);
-    (0..n)
+    let pts: Vec<(f32, f32)> = (0..n)
         .map(|i| {
             if i == 0 {
                 a
@@ -247,7 +250,15 @@ pub fn edge_geometry(spec: &AppSpec, e: usize) -> Vec<(f32, f32)> {
                 (a.0 + (b.0 - a.0) * t + bulge, a.1 + (b.1 - a.1) * t - bulge)
             }
         })
-        .collect()
+        .collect();
+    if spec.geom_repeat && e % 3 == 0 {
+        // repeat the point at position e % n (first, interior or last)
+        let k = e % n;
+        let mut out = pts.clone();
+        out.insert(k, pts[k]);
+        return out;
+    }
+    pts
 }
 
 pub fn uuid_of(v: usize) -> String {
